@@ -26,6 +26,10 @@ CFG = dict(
                  "a route without the attribute, as-path-length on a route without AS_PATH, RPKI with an origin that is "
                  "not the tail of an AS_SEQUENCE, prefix sets on non-IP NLRI: not judged",
                  "next-hop 'unchanged' may restore the received next hop or leave the current one",
+                 "a next-hop-in condition is decided by the forwarding (global) address of the route's next hop, also for the "
+                 "IPv6 global + link-local form (GoBGP: Path.GetNexthop); a condition that lists only the link-local half "
+                 "of that route's next hop is not judged; next hops after next-hop actions are compared in full (variant "
+                 "and both halves)",
                  "the real evaluation is called the way the daemon calls it: the RpkiTable is passed to apply_import / "
                  "apply_export only when the assignment's needs_rpki flag is set (daemon/src/table_manager.rs:708, "
                  "daemon/src/event/mod.rs:3355), otherwise None; the reference interpreter always knows the VRPs",
@@ -65,7 +69,13 @@ CFG = dict(
                          "rpki:program-with-rpki-condition:route-state:Valid": 900,
                          "rpki:program-with-rpki-condition:route-state:Invalid": 2000,
                          "rpki:program-with-rpki-condition:route-state:NotFound": 3000,
-                         "rpki:condition-state-equals-route-state": 2500}),
+                         "rpki:condition-state-equals-route-state": 2500,
+                         # IPv6 next hops in the global + link-local form (RFC 2545)
+                         "nexthop:route-with-global+link-local": 2000,
+                         "nexthop:condition-on-global+link-local-route": 300,
+                         "nexthop:condition-lists-the-global-of-a-global+link-local-route": 50,
+                         "nexthop:action-in-program-on-global+link-local-route": 80,
+                         "nexthop:unchanged-action-with-global+link-local-original": 15}),
     quick=[e1("all", "c14", "debug", 1, 120), e1("all", "c14", "release", 1, 120)],
     thorough=[e1("unit", "c14", "debug", 2, 200, part="unit"),
               e1("unit-rel", "c14", "release", 2, 200, part="unit"),
